@@ -7,6 +7,7 @@ import TongoProofs.Lemmas.BitStringTopUp
 import TongoProofs.Lemmas.BitStringCell
 import TongoProofs.Lemmas.BitStringZOps
 import TongoProofs.Lemmas.CellSeqSim
+import TongoProofs.Lemmas.CellSeqNoPanic2
 import TongoProofs.Lemmas.BitStringFiftParse
 import TongoGen.BitConsts
 /-! Property C06 — bit-string and cell read/write primitives behave like an ideal bit list.
@@ -485,6 +486,24 @@ theorem cell_ops_sequence (ops : List (Nat × CellOp)) (hwf : ∀ p ∈ ops, p.2
     (runAll implI ops initImpl).1.map normO = (runAll specI ops initSpec).1 ∧
     HeapRel R (runAll implI ops initImpl).2 (runAll specI ops initSpec).2 :=
   runAll_sim sim_impl_spec ops init_rel hwf
+
+open CellSeq in
+/-- `cell_no_panic`: with the operations a `Cell` offers (no `Grow`/`Append`), no operation of any sequence started from
+`NewCell()` panics — neither in the ideal specification nor in the model of the Go code: every bit-string method stays
+inside its buffer, `NewCellWithBits` inside `CopyRemaining` always gets ≤ 1023 bits, and the two `panic(err)` calls in
+its reference loop are unreachable, also with shared and self-referencing cells. -/
+theorem cell_no_panic (ops : List (Nat × CellOp)) (hwf : ∀ p ∈ ops, p.2.WF)
+    (hng : ∀ q ∈ ops, CellOp.noGrow q.2 = true) :
+    (∀ r ∈ (runAll specI ops initSpec).1, ∀ p, r ≠ .panic p) ∧
+    (∀ r ∈ (runAll implI ops initImpl).1, ∀ p, r ≠ .panic p) := by
+  have hspec := spec_runAll_no_panic ops init_spec_ok.1 init_spec_ok.2 hng
+  refine ⟨hspec, ?_⟩
+  intro r hr p hp
+  subst hp
+  have heq := (runAll_sim sim_impl_spec ops init_rel hwf).1
+  have hm : normO (.panic p) ∈ (runAll implI ops initImpl).1.map normO := List.mem_map_of_mem hr
+  rw [heq] at hm
+  exact hspec _ hm p rfl
 
 open CellSeq in
 /-- one cell-level step from related heaps (any heap, not only reachable ones) -/
